@@ -25,54 +25,187 @@ def read(rel):
 
 
 def fn_body(src, name):
-    m = re.search(r"pub fn %s\(c: char\) -> bool \{(.*?)\n\}" % name, src, re.S)
+    m = re.search(r"(?:pub )?fn %s\(c: char\) -> bool \{(.*?)\n\}" % name, src, re.S)
     if not m:
-        die("cannot find `pub fn %s(c: char) -> bool`" % name)
+        die("cannot find `fn %s(c: char) -> bool`" % name)
     return m.group(1)
 
 
-def lean_char(lit):
-    # Rust char literal body -> Lean char literal
-    table = {"\\\\": "'\\\\'", "\\'": "'\\''", "\\n": "'\\n'", "\\t": "'\\t'", "\\r": "'\\r'"}
-    if lit in table:
-        return table[lit]
-    if len(lit) == 1:
-        return "'%s'" % lit
-    die("unsupported character literal %r" % lit)
+# ---- a tiny evaluator for the boolean expressions the character-class predicates are written in.
+# Grammar: or := and ('||' and)* ; and := not ('&&' not)* ; not := '!' not | atom ;
+# atom := '(' or ')' | matches!(c, pat ('|' pat)*) | c == 'x' | c != 'x' | c.is_ascii_digit() | c.is_ascii_hexdigit()
+#       | c.is_alphabetic() | c.is_ascii_alphabetic() | c.is_ascii_alphanumeric() | c.is_whitespace() | c as u32 (>|>=|<|<=|==) N | ident(c)
+# pat := 'x' | 'x'..='y'.   Anything else makes the translator fail loudly.
+TOK = re.compile(r"""\s*(matches!|\|\||&&|!=|==|>=|<=|\.\.=|[()!|,<>]|'(?:\\.|[^'\\])'|0x[0-9a-fA-F]+|\d+|c\.\w+\(\)|c as u32|\w+)""")
+
+L1_ALPHABETIC = set(range(65, 91)) | set(range(97, 123)) | {0xAA, 0xB5, 0xBA} | set(range(0xC0, 0xD7)) | set(range(0xD8, 0xF7)) | set(range(0xF8, 0x100))
+L1_WHITESPACE = set(range(9, 14)) | {32, 0x85, 0xA0}
 
 
-ATOMS = [
-    (r"c\.is_alphabetic\(\)", "Marwood.isAlphabeticL1 c", "alphabetic"),
-    (r"c as u32 > 0xFF", "c.toNat > 0xFF", "high"),
-    (r"c\.is_ascii_digit\(\)", "Marwood.isAsciiDigit c", None),
-    (r"c\.is_ascii_hexdigit\(\)", "Marwood.isAsciiHex c", None),
-    (r"is_initial_identifier\(c\)", "isInitialIdentifier c", None),
-    (r"is_special_subsequent\(c\)", "isSpecialSubsequent c", None),
-]
+def tokenize(text, name):
+    pos, out = 0, []
+    text = text.strip()
+    while pos < len(text):
+        m = TOK.match(text, pos)
+        if not m:
+            die("%s: cannot tokenize %r" % (name, text[pos:pos + 30]))
+        out.append(m.group(1))
+        pos = m.end()
+    return out
+
+
+def char_of(lit, name):
+    body = lit[1:-1]
+    esc = {"\\\\": "\\", "\\'": "'", "\\n": "\n", "\\t": "\t", "\\r": "\r", "\\0": "\0"}
+    if body in esc:
+        return ord(esc[body])
+    if len(body) == 1:
+        return ord(body)
+    die("%s: unsupported character literal %s" % (name, lit))
+
+
+class Ev:
+    """evaluates one predicate at one code point; `high` = a code point above 0xFF (std's own tables would be
+    needed there, so methods that consult them refuse)"""
+
+    def __init__(self, src, name, toks, cp, stack):
+        self.src, self.name, self.t, self.i, self.cp, self.stack = src, name, toks, 0, cp, stack
+
+    def peek(self):
+        return self.t[self.i] if self.i < len(self.t) else None
+
+    def eat(self, x=None):
+        tok = self.peek()
+        if tok is None or (x is not None and tok != x):
+            die("%s: expected %r, found %r" % (self.name, x, tok))
+        self.i += 1
+        return tok
+
+    def or_(self):
+        v = self.and_()
+        while self.peek() == "||":
+            self.eat()
+            w = self.and_()
+            v = v or w
+        return v
+
+    def and_(self):
+        v = self.not_()
+        while self.peek() == "&&":
+            self.eat()
+            w = self.not_()
+            v = v and w
+        return v
+
+    def not_(self):
+        if self.peek() == "!":
+            self.eat()
+            return not self.not_()
+        return self.atom()
+
+    def pat(self):
+        lo = char_of(self.eat(), self.name)
+        if self.peek() == "..=":
+            self.eat()
+            hi = char_of(self.eat(), self.name)
+            return lo <= self.cp <= hi
+        return self.cp == lo
+
+    def method(self, tok):
+        cp = self.cp
+        if tok == "c.is_ascii_digit()":
+            return 48 <= cp <= 57
+        if tok == "c.is_ascii_hexdigit()":
+            return 48 <= cp <= 57 or 65 <= cp <= 70 or 97 <= cp <= 102
+        if tok == "c.is_ascii_alphabetic()":
+            return 65 <= cp <= 90 or 97 <= cp <= 122
+        if tok == "c.is_ascii_alphanumeric()":
+            return 48 <= cp <= 57 or 65 <= cp <= 90 or 97 <= cp <= 122
+        if tok in ("c.is_alphabetic()", "c.is_whitespace()"):
+            if cp > 0xFF:
+                return None     # unknown: only the Latin-1 part of std's tables is modelled
+            return cp in (L1_ALPHABETIC if tok == "c.is_alphabetic()" else L1_WHITESPACE)
+        die("%s: unsupported method %s" % (self.name, tok))
+
+    def atom(self):
+        tok = self.eat()
+        if tok == "(":
+            v = self.or_()
+            self.eat(")")
+            return v
+        if tok == "matches!":
+            self.eat("(")
+            self.eat("c")
+            self.eat(",")
+            v = self.pat()
+            while self.peek() == "|":
+                self.eat()
+                w = self.pat()
+                v = v or w
+            self.eat(")")
+            return v
+        if tok == "c":
+            op = self.eat()
+            if op not in ("==", "!="):
+                die("%s: unsupported operator %r after c" % (self.name, op))
+            x = char_of(self.eat(), self.name)
+            return (self.cp == x) == (op == "==")
+        if tok == "c as u32":
+            op = self.eat()
+            n = self.eat()
+            n = int(n, 16) if n.startswith("0x") else int(n)
+            return {">": self.cp > n, ">=": self.cp >= n, "<": self.cp < n, "<=": self.cp <= n, "==": self.cp == n}[op]
+        if tok.startswith("c."):
+            return self.method(tok)
+        if re.fullmatch(r"\w+", tok) and self.peek() == "(":
+            self.eat("(")
+            self.eat("c")
+            self.eat(")")
+            if tok in self.stack:
+                die("%s: recursive predicate %s" % (self.name, tok))
+            return eval_pred(self.src, tok, self.cp, self.stack + [tok])
+        die("%s: unsupported token %r" % (self.name, tok))
+
+
+class Unknown(Exception):
+    pass
+
+
+def eval_pred(src, name, cp, stack=None):
+    toks = tokenize(fn_body(src, name), name)
+    ev = Ev(src, name, toks, cp, stack or [name])
+    v = ev.or_()
+    if ev.peek() is not None:
+        die("%s: trailing tokens %r" % (name, ev.t[ev.i:]))
+    return v
+
+
+HIGH_SAMPLE = [0x100, 0x17F, 0x2B0, 0x300, 0x3BB, 0x660, 0x2028, 0x3000, 0x4E00, 0xD7FF, 0xE000, 0xFFFD, 0x1F600, 0x10FFFF]
 
 
 def translate_pred(src, name):
-    body = fn_body(src, name)
-    parts = [p.strip() for p in body.split("||")]
-    out, flags = [], set()
-    for p in parts:
-        m = re.fullmatch(r"c == '(\\?.)'", p)
-        if m:
-            out.append("c == " + lean_char(m.group(1)))
-            continue
-        for pat, lean, flag in ATOMS:
-            if re.fullmatch(pat, p):
-                out.append(lean)
-                if flag:
-                    flags.add(flag)
-                break
-        else:
-            die("%s: cannot translate disjunct %r" % (name, p))
-    if "alphabetic" in flags and "high" not in flags:
-        # the model's Latin-1 table for is_alphabetic is only adequate because the predicate also
-        # accepts everything above 0xFF
-        die("%s uses is_alphabetic without the `c as u32 > 0xFF` disjunct: the Latin-1 table no longer suffices" % name)
-    return "def %s (c : Char) : Bool :=\n  %s\n" % (lean_name(name), "\n    || ".join(out))
+    """canonical form: the set of Latin-1 code points on which the predicate is true + its (constant) value above
+    0xFF.  Python's `or`/`and` short-circuit like Rust's, so an unknown (None) table lookup above 0xFF only matters
+    when the rest of the expression does not already decide the result."""
+    table = []
+    for cp in range(0x100):
+        v = eval_pred(src, name, cp)
+        if v is None:
+            die("%s: undecidable at U+%04X" % (name, cp))
+        if v:
+            table.append(cp)
+    highs = set()
+    for cp in HIGH_SAMPLE:
+        v = eval_pred(src, name, cp)
+        highs.add(v)
+    if len(highs) != 1 or None in highs:
+        die("%s depends on std's Unicode tables above U+00FF (values %r on the sample): the Latin-1 model no longer "
+            "suffices" % (name, sorted(map(str, highs))))
+    high = highs.pop()
+    ln = lean_name(name)
+    return ("def %sTable : List Nat :=\n  [%s]\n\ndef %sHigh : Bool := %s\n\n"
+            "def %s (c : Char) : Bool :=\n  (decide (c.toNat > 0xFF) && %sHigh) || %sTable.contains c.toNat\n"
+            % (ln, ", ".join(map(str, table)), ln, "true" if high else "false", ln, ln, ln))
 
 
 def lean_name(rust):
